@@ -23,7 +23,8 @@ class Target:
     def __init__(self, name, fqn=None, mod=None, qual=None, kind="function", self_cls=None, params=None,
                  requires=(), ensures=(), raises=None, raises_default=None, no_raise=None, loops=None,
                  local_types=None, setup=None, allow_exc=None, assert_mode=None, modifies=None, node=None,
-                 unchecked_exc=()):
+                 unchecked_exc=(), reveal=()):
+        self.reveal = set(reveal)
         self.name, self.mod, self.qual, self.kind, self.self_cls = name, mod, qual, kind, self_cls
         self.params = dict(params or {})      # name -> Ty (parameters not listed take their default value)
         self.requires, self.ensures = list(requires), list(ensures)
@@ -94,6 +95,14 @@ class Engine(ExprMixin, StmtMixin, CallMixin, BuiltinMixin, EngineBase):
         if not isinstance(f, ast.Name):
             return None
         name = f.id
+        if name in self.specfuncs and name in self.opaque_specs and name not in self.revealed:
+            # opaque spec predicate: an uninterpreted function of its (flattened) arguments; its definition is
+            # only revealed in the targets that list it under `reveal`
+            def ko(q, vs):
+                comps = [c for v in vs for c in v.comps()]
+                f = self.ufunc("spec!" + name + "!" + "_".join(str(c.sort()) for c in comps), [c.sort() for c in comps], z3.BoolSort())
+                return [(q, VBool(f(*comps)))]
+            return self.bind(self.ev_list(node.args, p), ko)
         if name in self.specfuncs:
             fn = self.specfuncs[name]
 
@@ -185,6 +194,8 @@ class Engine(ExprMixin, StmtMixin, CallMixin, BuiltinMixin, EngineBase):
         raise Unsupported(f"spec type {ast.unparse(t)}")
 
     type_aliases: dict = {}
+    opaque_specs: set = set()
+    revealed: set = set()
 
     def sp_implies(self, node, p):
         return self.bind(self.ev_list(node.args, p),
@@ -209,6 +220,10 @@ class Engine(ExprMixin, StmtMixin, CallMixin, BuiltinMixin, EngineBase):
     def sp_typeis(self, node, p):
         cls = node.args[1].id
         return self.bind(self.ev(node.args[0], p), lambda q, v: [(q, VBool(self.is_instance(v.z, cls)))])
+
+    def sp_some(self, node, p):
+        """some(x): the payload of an optional (meaningful only where `x is not None` is also stated)."""
+        return self.bind(self.ev(node.args[0], p), lambda q, v: [(q, v.val if isinstance(v, VOpt) else v)])
 
     def sp_nonnull(self, node, p):
         return self.bind(self.ev(node.args[0], p), lambda q, v: [(q, VBool(v.z != NULL))])
@@ -268,6 +283,7 @@ class Engine(ExprMixin, StmtMixin, CallMixin, BuiltinMixin, EngineBase):
         n0 = len(self.obligations)
         t0 = time.time()
         saved_am = self.assert_mode
+        self.revealed = set(t.reveal)
         if t.assert_mode:
             self.assert_mode = t.assert_mode
         try:
